@@ -33,7 +33,9 @@ func checkC18(tier, replay string) int {
 	run := evid.NewRun("C18", tier, "exploration")
 	run.Rule("the real /metrics handler is invoked in-process and parsed: counters after N goroutines x M increments must equal the exact sums; " +
 		"histograms: for multisets of sizes {1,2,3,19,20,21,100,1000,32767,32768,...} over three consecutive reporting periods count = observations, min <= every percentile <= max, every percentile is a member of the period's multiset; " +
-		"concurrent observers + scraper: sum of period counts = total observations, sum of bucket counters = total, membership in the global multiset; " +
+		"concurrent observers + 1 or 3 scrapers: sum of period counts = total observations, sum of bucket counters = total, membership in the global multiset; " +
+		"periods opened by a barrier-released burst of 8 observers (64 histograms per scrape): exact min/max/count/membership; paced observers under three overlapping /metrics requests; " +
+		"1600 counters registered concurrently from 8 goroutines and 6000 more sequentially, each read back by name; the race detector watches the whole child; " +
 		"bucket index (via the verif hook) is monotone with bound >= value for 0..2^16, every table bound +-1, every 2^k +-1 and random values per magnitude; " +
 		"the assembly bit count (hook) and the portable routine (compiled from a scratch copy of metrics/lzcnt.go) both against math/bits on all one/two-bit patterns, 2^k +-1 and random inputs. " +
 		"distinct_nontrivial = distinct (multiset size, magnitude, period) histogram reads + distinct counter/bucket/lzcnt input classes")
@@ -63,14 +65,17 @@ type metricLine struct {
 	Val  string
 }
 
-func scrapeMetrics() []metricLine {
+func scrapeMetrics() []metricLine { return scrapeFiltered("") }
+
+// scrapeFiltered invokes the real /metrics handler and parses the lines whose name contains sub.
+func scrapeFiltered(sub string) []metricLine {
 	rec := httptest.NewRecorder()
 	req := httptest.NewRequest("GET", "/metrics", nil)
 	http.DefaultServeMux.ServeHTTP(rec, req)
 	var out []metricLine
 	for _, l := range strings.Split(rec.Body.String(), "\n") {
 		sp := strings.LastIndex(l, " ")
-		if sp < 0 {
+		if sp < 0 || (sub != "" && !strings.Contains(l, sub)) {
 			continue
 		}
 		head, val := l[:sp], l[sp+1:]
@@ -186,6 +191,62 @@ func childC18(args []string) int {
 	rng := rand.New(rand.NewSource(run.Seed()*89 + 18))
 	runtime.GC() // the endpoint indexes GC pauses [0]: make sure one GC has happened
 
+	// ---- histogram periods opened by a burst of concurrent observers: the extremes of a period
+	// are raced for by its very first observations
+	announceCase("burst periods")
+	{
+		// one scrape costs ~0.1 s under the race detector, so each scrape closes a period of H
+		// histograms, every one of them opened by its own barrier-released burst
+		const G, H = 8, 64
+		var hid [H]uint32
+		for h := range hid {
+			hid[h] = metrics.AddHistogram(fmt.Sprintf("verif_c18_burst%d", h), false, nil)
+		}
+		periods := run.Pick(50, 1200)
+		var vals [H][G]uint64
+		var gates [H]int32
+		var wg sync.WaitGroup
+		badPeriods := 0
+		for pd := 0; pd < periods; pd++ {
+			for h := 0; h < H; h++ {
+				base := 1 + uint64(rng.Int63n(1<<40))
+				for g := 0; g < G; g++ {
+					vals[h][g] = base + uint64(g)*uint64(1+rng.Intn(1000))
+				}
+				rng.Shuffle(G, func(i, j int) { vals[h][i], vals[h][j] = vals[h][j], vals[h][i] })
+				atomic.StoreInt32(&gates[h], 0)
+			}
+			for g := 0; g < G; g++ {
+				wg.Add(1)
+				go func(g int) {
+					defer wg.Done()
+					for h := 0; h < H; h++ {
+						atomic.AddInt32(&gates[h], 1)
+						for atomic.LoadInt32(&gates[h]) < G {
+						}
+						metrics.ObserveHist(hid[h], vals[h][g])
+					}
+				}(g)
+			}
+			wg.Wait()
+			lines := scrapeFiltered("verif_c18_burst")
+			for h := 0; h < H; h++ {
+				hr := readHist(lines, fmt.Sprintf("verif_c18_burst%d", h))
+				if d := checkPeriod(hr, vals[h][:]); d != "" {
+					if badPeriods == 0 {
+						run.Violation("metrics|histogram|burst of concurrent observers opens the period|"+d, map[string]interface{}{
+							"observations": append([]uint64(nil), vals[h][:]...), "reported": hr, "period": pd})
+					}
+					badPeriods++
+				}
+			}
+		}
+		run.Eval(1)
+		run.Count("burst_periods_checked", int64(periods*H))
+		run.Count("histogram_reads_checked", int64(periods*H))
+		run.Distinct("hist|burst periods")
+	}
+
 	// ---- counters
 	announceCase("counters")
 	{
@@ -258,10 +319,303 @@ func childC18(args []string) int {
 		run.Sample(map[string]interface{}{"kind": "counters", "goroutines": G, "increments_each": M, "sums": want})
 	}
 
+	// ---- histograms, sequential periods
+	sizes := []int{1, 2, 3, 19, 20, 21, 100, 1000, 32767, 32768, 32769, 40000}
+	if run.Thorough() {
+		sizes = append(sizes, 5, 7, 99, 101, 999, 1001, 5000, 32766)
+	}
+	mags := []uint64{10, 1000, 1 << 20, 1 << 40, 1<<63 - 1}
+	for si, size := range sizes {
+		name := fmt.Sprintf("verif_c18_h%d", si)
+		id := metrics.AddHistogram(name, false, nil)
+		for period := 0; period < 3; period++ {
+			mag := mags[(si+period)%len(mags)]
+			n := size
+			if period == 1 && size > 3 && size < 30000 {
+				n = size / 2 // a shorter period after a longer one: stale ring slots matter
+			}
+			obs := make([]uint64, n)
+			for i := range obs {
+				obs[i] = 1 + uint64(rng.Int63n(int64(mag)))
+			}
+			announceCase(fmt.Sprintf("histogram size=%d period=%d mag=%d", n, period, mag))
+			for _, v := range obs {
+				metrics.ObserveHist(id, v)
+			}
+			h := readHist(scrapeFiltered(name), name)
+			run.Eval(1)
+			run.Count("histogram_reads_checked", 1)
+			run.Count("observations", int64(n))
+			run.Distinct(fmt.Sprintf("hist|%d|%d|%d", n, mag, period))
+			if si == 3 && period == 0 {
+				run.Sample(map[string]interface{}{"kind": "histogram period", "observations": n, "magnitude": mag, "reported_count": h.Count, "p50": h.Pct["percentile50"]})
+			}
+			if d := checkPeriod(h, obs); d != "" {
+				sz := "many"
+				if n <= 3 {
+					sz = fmt.Sprint(n)
+				}
+				run.Violation(fmt.Sprintf("metrics|histogram|period %d|%s observations|%s", period, sz, d), map[string]interface{}{
+					"observations": obs[:minInt(len(obs), 8)], "n": n, "reported": h})
+			}
+		}
+	}
+
+	// ---- histograms, concurrent observers + scraper
+	for trial := 0; trial < run.Pick(2, 6); trial++ {
+		name := fmt.Sprintf("verif_c18_conc%d", trial)
+		id := metrics.AddHistogram(name, false, nil)
+		observers := []int{2, 8, 16}[trial%3]
+		scrapers := []int{1, 3}[trial%2]
+		per := run.Pick(80000, 400000)
+		announceCase(fmt.Sprintf("concurrent histogram observers=%d scrapers=%d", observers, scrapers))
+		all := map[uint64]bool{}
+		var allMu sync.Mutex
+		var sinceScrape int64
+		var wg sync.WaitGroup
+		for o := 0; o < observers; o++ {
+			wg.Add(1)
+			go func(o int) {
+				defer wg.Done()
+				r := rand.New(rand.NewSource(run.Seed()*7 + int64(o+trial*100)))
+				local := make([]uint64, per/observers)
+				for i := range local {
+					local[i] = 1 + uint64(r.Int63n(1<<30))
+				}
+				allMu.Lock()
+				for _, v := range local {
+					all[v] = true
+				}
+				allMu.Unlock()
+				for i, v := range local {
+					// keep every reporting period well below the 32768-slot ring
+					for atomic.LoadInt64(&sinceScrape) > 16000 {
+						time.Sleep(200 * time.Microsecond)
+					}
+					atomic.AddInt64(&sinceScrape, 1)
+					metrics.ObserveHist(id, v)
+					if i%64 == 0 {
+						runtime.Gosched()
+					}
+				}
+			}(o)
+		}
+		var sumCounts uint64
+		var bad string
+		var badRead histRead
+		done := make(chan struct{})
+		go func() { wg.Wait(); close(done) }()
+		var resMu sync.Mutex
+		scrape := func() {
+			h := readHist(scrapeFiltered(name), name)
+			atomic.StoreInt64(&sinceScrape, 0)
+			resMu.Lock()
+			defer resMu.Unlock()
+			sumCounts += h.Count
+			if h.Count == 0 || bad != "" {
+				return
+			}
+			mn, mx := h.Pct["percentile0"], h.Pct["percentile100"]
+			allMu.Lock()
+			for k, v := range h.Pct {
+				if v < mn || v > mx {
+					bad, badRead = "a percentile lies outside [min, max] ("+k+")", h
+				} else if !all[v] {
+					bad, badRead = "a percentile is not among the values observed ("+k+")", h
+				}
+			}
+			allMu.Unlock()
+			run.Count("concurrent_period_reads", 1)
+		}
+		var sw sync.WaitGroup
+		for sc := 0; sc < scrapers; sc++ {
+			sw.Add(1)
+			go func() {
+				defer sw.Done()
+				for {
+					select {
+					case <-done:
+						return
+					default:
+						scrape()
+					}
+				}
+			}()
+		}
+		sw.Wait()
+		scrape()
+		total := uint64((per / observers) * observers)
+		btotal, _ := readBuckets(scrapeFiltered(name), name)
+		run.Eval(1)
+		run.Distinct(fmt.Sprintf("conc|%d|%d|%d", observers, scrapers, trial))
+		if bad != "" {
+			run.Violation("metrics|histogram|concurrent|"+bad, map[string]interface{}{"observers": observers, "scrapers": scrapers, "read": badRead})
+		}
+		if sumCounts != total {
+			run.Violation("metrics|histogram|concurrent|sum of period counts differs from the number of observations", map[string]interface{}{"sum": sumCounts, "observations": total})
+		}
+		if btotal != total {
+			run.Violation("metrics|histogram|concurrent|sum of bucket counters differs from the number of observations", map[string]interface{}{"sum": btotal, "observations": total})
+		}
+	}
+
+	// ---- overlapping /metrics requests while observers stay active: a scrape costs some 0.1 s,
+	// so the observers are paced (instead of bursting and idling) and run until every scraper
+	// has finished its share of requests
+	for trial := 0; trial < run.Pick(1, 4); trial++ {
+		name := fmt.Sprintf("verif_c18_overlap%d", trial)
+		id := metrics.AddHistogram(name, false, nil)
+		const observers, scrapers = 6, 3
+		each := run.Pick(8, 30)
+		announceCase(fmt.Sprintf("overlapping scrapes trial=%d", trial))
+		all := map[uint64]bool{}
+		var allMu, resMu sync.Mutex
+		var sinceScrape, made int64
+		var stop int32
+		var wg sync.WaitGroup
+		for o := 0; o < observers; o++ {
+			wg.Add(1)
+			go func(o int) {
+				defer wg.Done()
+				r := rand.New(rand.NewSource(run.Seed()*11 + int64(o+trial*100)))
+				for atomic.LoadInt32(&stop) == 0 {
+					v := 1 + uint64(r.Int63n(1<<30))
+					allMu.Lock()
+					all[v] = true
+					allMu.Unlock()
+					for atomic.LoadInt64(&sinceScrape) > 12000 && atomic.LoadInt32(&stop) == 0 {
+						time.Sleep(200 * time.Microsecond)
+					}
+					atomic.AddInt64(&sinceScrape, 1)
+					metrics.ObserveHist(id, v)
+					atomic.AddInt64(&made, 1)
+					if r.Intn(4) == 0 {
+						time.Sleep(20 * time.Microsecond)
+					}
+				}
+			}(o)
+		}
+		var sumCounts uint64
+		var bad string
+		var badRead histRead
+		var sw sync.WaitGroup
+		for sc := 0; sc < scrapers; sc++ {
+			sw.Add(1)
+			go func() {
+				defer sw.Done()
+				for i := 0; i < each; i++ {
+					h := readHist(scrapeFiltered(name), name)
+					atomic.StoreInt64(&sinceScrape, 0)
+					resMu.Lock()
+					sumCounts += h.Count
+					if h.Count > 0 && bad == "" {
+						mn, mx := h.Pct["percentile0"], h.Pct["percentile100"]
+						allMu.Lock()
+						for k, v := range h.Pct {
+							if v < mn || v > mx {
+								bad, badRead = "a percentile lies outside [min, max] ("+k+")", h
+							} else if !all[v] {
+								bad, badRead = "a percentile is not among the values observed ("+k+")", h
+							}
+						}
+						allMu.Unlock()
+					}
+					resMu.Unlock()
+					run.Count("overlapping_period_reads", 1)
+				}
+			}()
+		}
+		sw.Wait()
+		atomic.StoreInt32(&stop, 1)
+		wg.Wait()
+		last := readHist(scrapeFiltered(name), name)
+		sumCounts += last.Count
+		total := uint64(atomic.LoadInt64(&made))
+		btotal, _ := readBuckets(scrapeFiltered(name), name)
+		run.Eval(1)
+		run.Count("observations", int64(total))
+		run.Distinct(fmt.Sprintf("overlap|%d", trial))
+		if bad != "" {
+			run.Violation("metrics|histogram|overlapping scrapes|"+bad, map[string]interface{}{"observers": observers, "scrapers": scrapers, "read": badRead})
+		}
+		if sumCounts != total {
+			run.Violation("metrics|histogram|overlapping scrapes|sum of period counts differs from the number of observations", map[string]interface{}{"sum": sumCounts, "observations": total})
+		}
+		if btotal != total {
+			run.Violation("metrics|histogram|overlapping scrapes|sum of bucket counters differs from the number of observations", map[string]interface{}{"sum": btotal, "observations": total})
+		}
+	}
+
+	// ---- counters registered concurrently at run time: every handle is its own slot
+	announceCase("concurrent registration")
+	{
+		const G, each = 8, 200
+		ids := make([][]uint32, G)
+		var gate int32
+		var wg sync.WaitGroup
+		for round := 0; round < each/25; round++ {
+			atomic.StoreInt32(&gate, 0)
+			for g := 0; g < G; g++ {
+				wg.Add(1)
+				go func(g int) {
+					defer wg.Done()
+					atomic.AddInt32(&gate, 1)
+					for atomic.LoadInt32(&gate) < G {
+					}
+					for i := 0; i < 25; i++ {
+						n := len(ids[g])
+						var tags metrics.Tags
+						if n%3 == 0 {
+							tags = metrics.Tags{"g": fmt.Sprint(g)}
+						}
+						ids[g] = append(ids[g], metrics.AddCounter(fmt.Sprintf("verif_c18_reg_%d_%d", g, n), tags))
+					}
+				}(g)
+			}
+			wg.Wait()
+		}
+		seen := map[uint32]string{}
+		dup := ""
+		for g := 0; g < G; g++ {
+			for n, id := range ids[g] {
+				name := fmt.Sprintf("verif_c18_reg_%d_%d", g, n)
+				if other, ok := seen[id]; ok && dup == "" {
+					dup = other + " and " + name
+				}
+				seen[id] = name
+				metrics.IncCounterBy(id, uint64(g*1000+n+1))
+				metrics.IncCounter(id)
+			}
+		}
+		got := map[string]uint64{}
+		for _, l := range scrapeMetrics() {
+			if strings.HasPrefix(l.Name, "verif_c18_reg_") {
+				got[l.Name], _ = strconv.ParseUint(l.Val, 10, 64)
+			}
+		}
+		bad := 0
+		for g := 0; g < G; g++ {
+			for n := range ids[g] {
+				name := fmt.Sprintf("verif_c18_reg_%d_%d", g, n)
+				if v, ok := got[name]; !ok || v != uint64(g*1000+n+2) {
+					if bad == 0 {
+						run.Violation("metrics|counter|counters registered concurrently: a counter reports a value that differs from its increments", map[string]interface{}{
+							"counter": name, "reported": v, "present": ok, "expected": g*1000 + n + 2, "handles_shared_by": dup})
+					}
+					bad++
+				}
+			}
+		}
+		run.Eval(1)
+		run.Count("counter_reads_checked", G*each)
+		run.Count("counters_registered_concurrently", G*each)
+		run.Distinct("counter|concurrent registration")
+	}
+
 	// ---- many counters: every registered counter is its own (the table holds 10240)
 	announceCase("many counters")
 	{
-		const N = 7000
+		const N = 6000
 		ids := make([]uint32, N)
 		for i := range ids {
 			ids[i] = metrics.AddCounter(fmt.Sprintf("verif_c18_many_%d", i), nil)
@@ -298,135 +652,6 @@ func childC18(args []string) int {
 		run.Eval(1)
 		run.Count("counter_reads_checked", N)
 		run.Distinct("counter|many")
-	}
-
-	// ---- histograms, sequential periods
-	sizes := []int{1, 2, 3, 19, 20, 21, 100, 1000, 32767, 32768, 32769, 40000}
-	if run.Thorough() {
-		sizes = append(sizes, 5, 7, 99, 101, 999, 1001, 5000, 32766)
-	}
-	mags := []uint64{10, 1000, 1 << 20, 1 << 40, 1<<63 - 1}
-	for si, size := range sizes {
-		name := fmt.Sprintf("verif_c18_h%d", si)
-		id := metrics.AddHistogram(name, false, nil)
-		for period := 0; period < 3; period++ {
-			mag := mags[(si+period)%len(mags)]
-			n := size
-			if period == 1 && size > 3 && size < 30000 {
-				n = size / 2 // a shorter period after a longer one: stale ring slots matter
-			}
-			obs := make([]uint64, n)
-			for i := range obs {
-				obs[i] = 1 + uint64(rng.Int63n(int64(mag)))
-			}
-			announceCase(fmt.Sprintf("histogram size=%d period=%d mag=%d", n, period, mag))
-			for _, v := range obs {
-				metrics.ObserveHist(id, v)
-			}
-			h := readHist(scrapeMetrics(), name)
-			run.Eval(1)
-			run.Count("histogram_reads_checked", 1)
-			run.Count("observations", int64(n))
-			run.Distinct(fmt.Sprintf("hist|%d|%d|%d", n, mag, period))
-			if si == 3 && period == 0 {
-				run.Sample(map[string]interface{}{"kind": "histogram period", "observations": n, "magnitude": mag, "reported_count": h.Count, "p50": h.Pct["percentile50"]})
-			}
-			if d := checkPeriod(h, obs); d != "" {
-				sz := "many"
-				if n <= 3 {
-					sz = fmt.Sprint(n)
-				}
-				run.Violation(fmt.Sprintf("metrics|histogram|period %d|%s observations|%s", period, sz, d), map[string]interface{}{
-					"observations": obs[:minInt(len(obs), 8)], "n": n, "reported": h})
-			}
-		}
-	}
-
-	// ---- histograms, concurrent observers + scraper
-	for trial := 0; trial < run.Pick(2, 6); trial++ {
-		name := fmt.Sprintf("verif_c18_conc%d", trial)
-		id := metrics.AddHistogram(name, false, nil)
-		observers := []int{2, 8, 16}[trial%3]
-		per := run.Pick(80000, 400000)
-		announceCase(fmt.Sprintf("concurrent histogram observers=%d", observers))
-		all := map[uint64]bool{}
-		var allMu sync.Mutex
-		var sinceScrape int64
-		var wg sync.WaitGroup
-		for o := 0; o < observers; o++ {
-			wg.Add(1)
-			go func(o int) {
-				defer wg.Done()
-				r := rand.New(rand.NewSource(run.Seed()*7 + int64(o+trial*100)))
-				local := make([]uint64, per/observers)
-				for i := range local {
-					local[i] = 1 + uint64(r.Int63n(1<<30))
-				}
-				allMu.Lock()
-				for _, v := range local {
-					all[v] = true
-				}
-				allMu.Unlock()
-				for i, v := range local {
-					// keep every reporting period well below the 32768-slot ring
-					for atomic.LoadInt64(&sinceScrape) > 16000 {
-						runtime.Gosched()
-					}
-					atomic.AddInt64(&sinceScrape, 1)
-					metrics.ObserveHist(id, v)
-					if i%64 == 0 {
-						runtime.Gosched()
-					}
-				}
-			}(o)
-		}
-		var sumCounts uint64
-		var bad string
-		var badRead histRead
-		done := make(chan struct{})
-		go func() { wg.Wait(); close(done) }()
-		scrape := func() {
-			h := readHist(scrapeMetrics(), name)
-			atomic.StoreInt64(&sinceScrape, 0)
-			sumCounts += h.Count
-			if h.Count == 0 || bad != "" {
-				return
-			}
-			mn, mx := h.Pct["percentile0"], h.Pct["percentile100"]
-			allMu.Lock()
-			for k, v := range h.Pct {
-				if v < mn || v > mx {
-					bad, badRead = "a percentile lies outside [min, max] ("+k+")", h
-				} else if !all[v] {
-					bad, badRead = "a percentile is not among the values observed ("+k+")", h
-				}
-			}
-			allMu.Unlock()
-			run.Count("concurrent_period_reads", 1)
-		}
-	loop:
-		for {
-			select {
-			case <-done:
-				break loop
-			default:
-				scrape()
-			}
-		}
-		scrape()
-		total := uint64((per / observers) * observers)
-		btotal, _ := readBuckets(scrapeMetrics(), name)
-		run.Eval(1)
-		run.Distinct(fmt.Sprintf("conc|%d|%d", observers, trial))
-		if bad != "" {
-			run.Violation("metrics|histogram|concurrent|"+bad, map[string]interface{}{"observers": observers, "read": badRead})
-		}
-		if sumCounts != total {
-			run.Violation("metrics|histogram|concurrent|sum of period counts differs from the number of observations", map[string]interface{}{"sum": sumCounts, "observations": total})
-		}
-		if btotal != total {
-			run.Violation("metrics|histogram|concurrent|sum of bucket counters differs from the number of observations", map[string]interface{}{"sum": btotal, "observations": total})
-		}
 	}
 
 	// ---- bucket index
